@@ -262,9 +262,15 @@ instance : Add Cx := ⟨fun a b => ⟨a.re + b.re, a.im + b.im⟩⟩
 instance : Sub Cx := ⟨fun a b => ⟨a.re - b.re, a.im - b.im⟩⟩
 instance : Mul Cx := ⟨fun a b => ⟨a.re * b.re - a.im * b.im, a.re * b.im + a.im * b.re⟩⟩
 instance : Neg Cx := ⟨fun a => ⟨-a.re, -a.im⟩⟩
+/-- complex division with the divisor first brought to magnitude ~1 by an exact power of two (as the run-time
+library of the compiler does), so that `|b|²` neither overflows nor underflows for operands of any magnitude -/
 instance : Div Cx := ⟨fun a b =>
-  let d := b.re * b.re + b.im * b.im
-  ⟨(a.re * b.re + a.im * b.im) / d, (a.im * b.re - a.re * b.im) / d⟩⟩
+  let m := if b.re.abs < b.im.abs then b.im.abs else b.re.abs
+  let e := (Float.frExp m).2
+  let br := b.re.scaleB (-e)
+  let bi := b.im.scaleB (-e)
+  let d := br * br + bi * bi
+  ⟨((a.re * br + a.im * bi) / d).scaleB (-e), ((a.im * br - a.re * bi) / d).scaleB (-e)⟩⟩
 instance : OfNat Cx 0 := ⟨⟨0, 0⟩⟩
 instance : OfNat Cx 1 := ⟨⟨1, 0⟩⟩
 /-- `fvmeta::absreal(std::complex)` = |re| + |im| -/
